@@ -131,6 +131,20 @@ def run(ck):
             import re as _re
             lines = [_re.sub(r"\b([ABC])\b", lambda m_: ren[m_.group(1)], l) if l.lstrip().startswith("#") else l for l in lines]
             syms = ",".join(ren[x] for x in syms.split(",")) if syms != "-" else "-"
+        if rng.random() < 0.3:
+            # the blanks of directive lines (before '#', after it, between the tokens) are any white space, not only spaces and tabs
+            WS = ["\x0b", "\x0c", "\x85", "\xa0", "\u1680", "\u2000", "\u2003", "\u200a", "\u2028", "\u2029", "\u202f", "\u205f", "\u3000", "\t", " "]
+            def blanks(l):
+                if not l.lstrip().startswith("#"):
+                    return l
+                head, _, comment = l.partition("//")
+                head = "".join((rng.choice(WS) if ch == " " and rng.random() < 0.7 else ch) for ch in head)
+                if rng.random() < 0.3:
+                    head = rng.choice(WS) + head
+                if rng.random() < 0.2:
+                    head = head.replace("#", "#" + rng.choice(WS), 1)
+                return head + (("//" + comment) if _ else "")
+            lines = [blanks(l) for l in lines]
         add(lines, syms, eol=rng.choice(["\n", "\n", "\r\n"]), kind="random", last_eol=rng.random() < 0.8)
 
     lines_in = [c for c, _ in cases]
@@ -253,8 +267,35 @@ def run(ck):
         other = [d for d in dl if d["code"] != "BrokenDocLink"]
         if sorted(got) != sorted(want) or other:
             ck.violation("doc-comments-across-directives", "comment-line-moved", text, repr(sorted(want)), repr(sorted(got)) + (" and %s %s" % (other[0]["code"], other[0]["msg"]) if other else ""))
+    # 7. several independent defects in one file: each is reported where it stands, none is dropped as a consequence of an earlier one
+    scases = []
+    for _ in range(300 if ck.tier == "quick" else 3000):
+        ls, rows = ["module M"], []
+        for _ in range(rng.choice([2, 3, 4, 6])):
+            r = rng.random()
+            if r < 0.45:
+                ls.append(rng.choice(["#endif", "#else", "#elif A", "#undef", "#define", "  #endif // x", "#else // y", "#define // nothing", "#undef\t"]))
+                rows.append(len(ls))
+            elif r < 0.7:
+                ls.append("struct S%d {}" % len(ls))
+            else:
+                ls += ["#if A", "struct T%d {}" % len(ls), rng.choice(["#else", "#elif B"]), "struct U%d {}" % len(ls), "#endif"]
+        if len(rows) >= 2:
+            scases.append(("\n".join(ls) + "\n", rows))
+    so = core.run_impl("diags", ["diags - " + hx(t) for t, _ in scases], chunk=200, timeout=120)
+    ck.stream("several-defects", description="files with two or more independent defective directives at the top level (a stray #endif, #else or #elif, a #define or #undef without its symbol) between well-formed lines and regions: "
+              "a syntax error is reported on the line of every one of them")
+    for (text, rows), oo in zip(scases, so):
+        ck.count("several-defects", text, kind="%d defects" % len(rows))
+        dl = parse_diags(oo)
+        if dl is None:
+            ck.violation("several-defects", "crash", text, "diagnostics", oo[:200])
+            continue
+        got = sorted({int(d["span"].rsplit("-", 1)[0].split(":")[-2]) for d in dl if d["code"] == "E002" and d["span"] != "-"})
+        if got != sorted(set(rows)):
+            ck.violation("several-defects", "defective-directive-not-reported" if len(got) < len(set(rows)) else "reports-differ", text, "syntax errors on lines %s" % sorted(set(rows)), "on lines %s" % got)
     ck.extra["exhaustive"] = True
     ck.extra["rule"] = ("bounded-exhaustive: all sequences of <= %d lines over %d line forms x all 8 subsets of {A,B,C}, all sequences of %d lines x %d subsets; all sequences of <= 3 lines containing a malformed form; "
-                        "%d expressions (grammar-enumerated, depth <= %d) x all 8 valuations; %d random files (nesting <= 5, indentation before '#', trailing comments, CRLF, blank lines); multi-file leakage. "
+                        "%d expressions (grammar-enumerated, depth <= %d) x all 8 valuations; %d random files (nesting <= 5, indentation before '#', any Unicode white space as the blanks of directive lines, trailing comments, CRLF, blank lines); multi-file leakage. "
                         "Distinct by case text; all non-trivial.") % (L, len(FORMS), L + 1, len(extra_subsets), len(gen_exprs(3 if ck.tier == "thorough" else 2)), 3 if ck.tier == "thorough" else 2, nrand)
     ck.partial.append("LALRPOP's error recovery inside directives is modelled at accept/reject level only (how many E002 are listed is not compared)")
